@@ -86,10 +86,16 @@ def contexts(dialect, text, exp, kind):
         yield "units-padded", "k = %s < km/s >;" % text, [("k", Q(exp, "km/s"))]
         yield "units-in-seq", "k = (%s <m>, 1 <s>)" % text, [("k", S(Q(exp, "m"), Q(1, "s")))]
         yield "units-newline", "k = %s\n    <m>\n" % text, [("k", Q(exp, "m"))]
+        # a comment is white space: also between a value and its units expression
+        yield "units-after-comment", "k = %s /* c */ <m>\nj = 1" % text, [("k", Q(exp, "m")), ("j", 1)]
+        yield "units-in-seq-after-comment", "k = (%s /* x */ <m>, 2)" % text, [("k", S(Q(exp, "m"), 2))]
+        if dialect in ("ISIS", "OMNI"):
+            yield "units-after-hash-comment", "k = %s # c\n  <m>\n" % text, [("k", Q(exp, "m"))]
     elif dialect not in ("ODL", "PDS3"):
         yield "units-on-string", "k = %s <m>" % text, [("k", Q(exp, "m"))]
     if dialect not in ("ODL", "PDS3"):
         yield "units-on-seq", "k = (%s, 1) <m>" % text, [("k", Q(S(exp, 1), "m"))]
+        yield "units-on-seq-after-comment", "k = (%s, 1) /* c */ <m>" % text, [("k", Q(S(exp, 1), "m"))]
     if dialect in ("ISIS", "OMNI") and not multiline:
         yield "hash-comment", "k = %s # c\nj = 1\n" % text, [("k", exp), ("j", 1)]
         yield "hash-comment-line", "# c = 2\nk = %s\n# d\nj = 1\n" % text, [("k", exp), ("j", 1)]
